@@ -185,3 +185,47 @@ def update_index(index_dir:Path, opts:dict, force=False):
         quiet=True, debug_level=1, **cleavage_args(opts))
     with quiet():
         mod('update_index').update_index(a)
+
+
+def call_variant_cli(d:Path, gvfs, opts:dict, out_name='cli.fasta', index_dir=None,
+        hashseed='0', timeout=600):
+    """ run callVariant through the console entry point in a fresh process.
+    returns (returncode, peptides {seq: header}, duplicate sequences, stderr tail) """
+    import os
+    import subprocess
+    d = Path(d)
+    cmd = [sys.executable, '-m', 'moPepGen.cli', 'callVariant', '-i'] + [str(x) for x in gvfs]
+    cmd += ['-o', str(d/out_name)]
+    if index_dir:
+        cmd += ['--index-dir', str(index_dir)]
+    else:
+        cmd += ['-g', str(d/'genome.fasta'), '-a', str(d/'anno.gtf'), '-p',
+            str(d/'proteome.fasta')]
+    c = cleavage_args(opts)
+    cmd += ['-c', c['cleavage_rule'], '-m', str(c['miscleavage']), '-w', str(c['min_mw']),
+        '-l', str(c['min_length']), '-x', str(c['max_length'])]
+    if c['cleavage_exception'] is not None:
+        cmd += ['--cleavage-exception', str(c['cleavage_exception'])]
+    cmd += ['--threads', str(opts.get('threads', 1))]
+    cmd += ['--max-variants-per-node'] + [str(x) for x in opts.get('max_variants_per_node', (-1,))]
+    cmd += ['--additional-variants-per-misc'] + [str(x) for x in
+        opts.get('additional_variants_per_misc', (-1,))]
+    cmd += ['--timeout-seconds', str(opts.get('timeout_seconds', 60))]
+    for flag, key in (('--selenocysteine-termination', 'sect'), ('--w2f-reassignment', 'w2f'),
+            ('--coding-novel-orf', 'coding_novel_orf'), ('--skip-failed', 'skip_failed'),
+            ('--noncanonical-transcripts', 'noncanonical_transcripts'),
+            ('--backsplicing-only', 'backsplicing_only')):
+        if opts.get(key):
+            cmd.append(flag)
+    cmd += ['-q']
+    for f in (d/out_name, d/(Path(out_name).stem + '_peptide_table.txt')):
+        if f.exists():
+            f.unlink()
+    env = dict(os.environ)
+    env['PYTHONHASHSEED'] = str(hashseed)
+    env.update(opts.get('env', {}))
+    pr = subprocess.run(cmd, env=env, stdout=subprocess.PIPE, stderr=subprocess.PIPE,
+        timeout=timeout, cwd=str(d), check=False)
+    peps, dups = read_fasta(d/out_name)
+    return pr.returncode, peps, dups, pr.stderr.decode(errors='replace')[-3000:], \
+        (d/out_name).exists()
